@@ -178,7 +178,7 @@ def h_roundtrip(ctx, nrandom):
     from yowsup.config.v1.config import Config
     with _Env() as env:
         fmt = ctx.choice("format", ["json", "keyval"])
-        how = ctx.choice("load_by", ["path-with-extension", "path-without-extension", "profile-name", "fresh-profile-name"])
+        how = ctx.choice("load_by", ["path-with-extension", "path-without-extension", "profile-name", "fresh-profile-name", "profile-object"])
         family = ctx.choice("values", ["plain", "unicode", "zeros", "surrogate", "empty"])
         locale_enc = ctx.choice("locale_encoding", ["utf-8", "ascii"])
         name, subset = _subset(ctx, nrandom)
@@ -211,14 +211,33 @@ def _roundtrip_body(ctx, env, cm, cfg, st, fmt, how, vals):
     from yowsup.config.manager import ConfigManager
     from yowsup.config.v1.config import Config
     if True:
-        if how in ("profile-name", "fresh-profile-name"):
+        if how in ("profile-name", "fresh-profile-name", "profile-object"):
             if fmt != "json":
                 return []          # profiles are stored as config.json
-            prof = "4915901234567"
+            # the profile's name: the account's phone number (what the command line client does) or a name of the user's choosing
+            prof = ctx.choice("profile_named", ["4915901234567", "work"])
+            # state of the working directory the process runs in: nothing of that name / a directory named like the profile (a project
+            # folder keeping per-account data) / the library's own storage root, where every profile name is a directory
+            cwd = ctx.choice("working_directory", ["neutral", "has-directory-named-like-the-profile", "storage-root"])
             if how == "profile-name":
                 cm.save(prof, Config(phone="1"), st)          # the profile has been used before
-            cm.save(prof, cfg, st)
-            loaded = cm.load(prof)
+            if how == "profile-object":
+                from yowsup.profile.profile import YowProfile
+                YowProfile(prof, cfg).write_config(cfg)       # what the login does when the server key changed
+            else:
+                cm.save(prof, cfg, st)
+            here = os.getcwd()
+            wd = os.path.join(env.d, "wd")
+            os.makedirs(os.path.join(wd, prof, "media") if cwd == "has-directory-named-like-the-profile" else wd, exist_ok=True)
+            os.chdir(os.path.join(env.d, "cfgroot", "yowsup") if cwd == "storage-root" and os.path.isdir(os.path.join(env.d, "cfgroot", "yowsup")) else wd)
+            try:
+                if how == "profile-object":
+                    from yowsup.profile.profile import YowProfile
+                    loaded = YowProfile(prof).config
+                else:
+                    loaded = cm.load(prof)
+            finally:
+                os.chdir(here)
         else:
             ext = {"json": ".json", "keyval": ".yo"}[fmt] if how == "path-with-extension" else ""
             dest = os.path.join(env.d, "myconfig" + ext)
